@@ -80,6 +80,17 @@ Theorem C09_accept_keeps_wf : forall D dt g,
 Proof. exact check_one_wf. Qed.
 Print Assumptions C09_accept_keeps_wf.
 
+(* Definition names are compared case-folded (str.casefold(), table Gen/C09Fold.v
+   regenerated from CPython for the code points of the generated names): kernel-evaluated
+   example with a name whose lower() differs from its casefold() *)
+Theorem C09_casefold_duplicate_example :
+  map fst ex_dict_sz = [s_strasse_lo] /\
+  check_one ex_dict_sz (tg BDefinition s_strasse_up) [T (tg BDefinition s_strasse_up); G [t_blue]]
+    = (ex_dict_sz, [DuplicateDefinition]) /\
+  option_map ename (def_entry ex_dict_sz (tg BDef s_strasse_up)) = Some s_strasse_sz.
+Proof. exact casefold_duplicate_example. Qed.
+Print Assumptions C09_casefold_duplicate_example.
+
 (* ---- spec layer, all forests ---------------------------------------------- *)
 
 (* expansion changes Def tags with a matching definition into
@@ -87,6 +98,16 @@ Print Assumptions C09_accept_keeps_wf.
 Theorem C09_expand_only_defs : forall D f, Forall2 (exp_rel D) f (expand_t D f).
 Proof. exact expand_only_defs. Qed.
 Print Assumptions C09_expand_only_defs.
+
+(* tags carry their library namespace (tl:Def/A, sc:Def/A in a schema group): all
+   theorems of this file quantify over it; the expansion of a Def tag starts with the
+   same tag printed as <namespace>Def-expand/<extension> *)
+Theorem C09_expand_keeps_namespace : forall D t ch,
+  wf_dict D = true -> expansion D t = Some ch ->
+  exists t' c, ch = T t' :: c /\ tns t' = tns t /\ text t' = text t /\
+               short_tag t' = tns t ++ s_defexpand ++ match text t with [] => [] | e => ch_slash :: e end.
+Proof. exact expand_keeps_namespace. Qed.
+Print Assumptions C09_expand_keeps_namespace.
 
 Theorem C09_expand_idem_t : forall D f,
   wf_dict D = true -> expand_t D (expand_t D f) = expand_t D f.
@@ -155,7 +176,7 @@ Print Assumptions C09_defexpand_valid_partial.
 Theorem C09_defexpand_literal_placeholder_rejected :
   exists t g,
     expansion ex_dict_q (set_base t BDef) =
-      Some [T t; G [T (mkTag (BOther s_label true false) [51]%N (s_label ++ [47;35]%N))]] /\
+      Some [T t; G [T (mkTag (BOther s_label true false) [51]%N (s_label ++ [47;35]%N) [])]] /\
     g = [T t; G [T (tg (BOther s_label true false) [35]%N)]] /\
     defexpand_accepted false ex_dict_q t g = false /\ defexpand_accepted true ex_dict_q t g = false.
 Proof. exact defexpand_literal_placeholder_rejected. Qed.
